@@ -100,7 +100,9 @@ def check_roundtrip(lx: LayoutExtractor, rep, prefix='C01'):
         loc = c.loc()
         pairs, aprob = align(lay)
         # O1 ------------------------------------------------------------------
-        p1 = list(aprob)
+        p1 = list(aprob) + list(lx.size_problems.get(c.name, []))
+        for k in c.mro()[1:]:
+            p1 += lx.size_problems.get(k.name, [])
         for e, d in pairs:
             if e[0] == 'f':
                 if (e[1], e[2], e[3]) != (d[1], d[2], d[3]):
